@@ -201,6 +201,10 @@ def model_worker(job):
                    'json_ast': json_bytes.decode('utf-8'), 'model_seed': mseed, 'model_index': job['index']}
     try:
         mb, cached = build_model(spec, cfgspec, json_bytes, prof['flavor'], job.get('use_cache', True))
+    except worldA.GenerationFailure as gf:
+        summary['violations'].append({'class': 'generation-failure', 'detail': str(gf)[:300], 'site': '*',
+                                      'replay': dict(replay_base, run=None, diagnostics=str(gf))})
+        return summary
     except worldA.CompileFailure as cf:
         if cf.where == 'generated':
             summary['violations'].append({'class': 'compile-failure', 'detail': _first_error(cf.diagnostics), 'site': '*',
@@ -275,10 +279,12 @@ def run_check(prop, profile, level, tier, seed, n_models, runs_per_model, rule, 
     compile_s = 0.0
     pairs_total = pairs_cov = 0
     kinds = {}
+    rd = hashlib.sha256()
     for status, s in results:
         if status != 'ok':
             rep.harness_errors.append(s)
             continue
+        rd.update(json.dumps([s['index'], s['digests'], s['ilhashes'], sorted(v['class'] for v in s['violations'])]).encode())
         total_runs += s['runs']
         total_steps += s['steps']
         digests.update(s['digests'])
@@ -309,6 +315,7 @@ def run_check(prop, profile, level, tier, seed, n_models, runs_per_model, rule, 
         'fault_kinds_fired': stats.get('faults', {}), 'probes': stats.get('probes', {}),
         'pairs_covered': pairs_cov, 'pairs_total': pairs_total, 'compile_s': round(compile_s, 1),
         'seeds': f'VERIF_SEED={seed}; model seeds = SHA256(seed/modelA/<stream>/<i>), i<{n_models}',
+        'run_digest': rd.hexdigest(),
     }
     if extra:
         rep.coverage.update(extra)
